@@ -39,7 +39,8 @@ def render(doc):
 
 
 def build(scn, how=0):
-    """how the batch request is filled: 0 all at once (constructor), 1 one by one (append), 2 the first one, then the rest (extend)"""
+    """how the batch request is filled: 0 all at once (constructor), 1 one by one (append), 2 the first one, then the rest (extend),
+    3 all at once into a batch request object that does not check ids (strict=False)"""
     if scn['mode'] == 'single':
         return pjrpc.Request('m', [1], id=1)
     reqs = []
@@ -54,10 +55,15 @@ def build(scn, how=0):
         b = pjrpc.BatchRequest(*reqs[:1])
         b.extend(reqs[1:])
         return b
+    if how == 3:
+        return pjrpc.BatchRequest(*reqs, strict=False)
     return pjrpc.BatchRequest(*reqs)
 
 
 def observe(scn, request, resp, ev):
+    if resp is None:        # the client treated a request with calls in it as a notification
+        ev.append({'ev': 'Outcome', 'v': 'nothing_returned', 'links': []})
+        return
     if scn['mode'] == 'single':
         ev.append({'ev': 'Outcome', 'v': 'ok', 'links': [{'id': a_id(resp.id), 'pos': 1 if resp.related is request else 0}]})
         return
@@ -116,7 +122,7 @@ if __name__ == '__main__':
     out = []
     import zlib
     for s in json.load(open(sys.argv[1])):
-        how = zlib.crc32(json.dumps(s, sort_keys=True).encode()) % 3     # not the position: the enumeration order is periodic
+        how = zlib.crc32(json.dumps(s, sort_keys=True).encode()) % 4     # not the position: the enumeration order is periodic
         out.append(guarded(run_one)(s, 'sync', loop, how))
         out.append(guarded(run_one)(s, 'async', loop, how))
     json.dump(out, open(sys.argv[2], 'w'))
